@@ -399,7 +399,9 @@ type chg struct {
 	from, to   []byte
 }
 
-func (c *chg) String() string { return fmt.Sprintf("%s:%s:%s:%s", c.t, hx.Hex(c.pkey), opt(c.from), opt(c.to)) }
+func (c *chg) String() string {
+	return fmt.Sprintf("%s:%s:%s:%s", c.t, hx.Hex(c.pkey), opt(c.from), opt(c.to))
+}
 
 func change(b, x *pk.KV, cam bool) *chg {
 	switch {
@@ -536,6 +538,13 @@ func collideFn(mode string, log *[]string) tree.CollisionFn {
 		to, ok := collideTo(pickCollide(mode, pk.KeyField(left.Key), left.To, right.To), left.To, right.To)
 		return tree.Diff{Key: left.Key, From: left.From, To: to, Type: left.Type}, ok
 	}
+}
+
+func firstLine(s string) string {
+	if i := strings.IndexByte(s, '\n'); i >= 0 {
+		return s[:i]
+	}
+	return s
 }
 
 func kvsStr(kvs []pk.KV) string {
@@ -751,8 +760,35 @@ func runCase(e *hx.Env, sh *pk.Shipper, ns tree.NodeStore, c *Case) {
 			}
 			e.Rep.Count(fmt.Sprintf("%d|%s|%s|%s|%s", c.M, b.Map.HashOf(), l.Map.HashOf(), r.Map.HashOf(), op.Mode), nrange > 0 || len(wantColl) > 0)
 			key := "MergeMaps/" + c.Kind
+			// The model (the transliterated, unchanged code) is asked first: besides its result it reports
+			// two INPUT-SHAPE flags — `cause` (known finding MergeMaps/canonical-shape) and `straddle`:
+			// does the unchanged SendPatches, on this input, split a removed range whose `from` node
+			// straddles previousKey (split's RemovedDiff case has no skip loop)?  That is the cause of the
+			// known finding MergeMaps/tail-truncation-data-loss (design/C14.md, second defect).  A wrong
+			// result is that known finding only if the flag is set AND the real patch stream equals the
+			// model's; everything else stays a violation.
+			modFull := sh.M.Ask(fmt.Sprintf("merge %d %d %d %s", idb, idl, idr, op.Mode))
+			mod, cause, straddle := modFull, false, false
+			if k := strings.LastIndex(mod, " straddle="); k >= 0 {
+				mod, straddle = mod[:k], mod[k:] == " straddle=1"
+			}
+			if k := strings.LastIndex(mod, " cause="); k >= 0 {
+				mod, cause = mod[:k], mod[k:] == " cause=1"
+			}
+			mparts := strings.SplitN(mod, " ", 4)
+			patchesAgree := len(mparts) == 4 && mparts[2] == patches
+			tailKnown := func(symptom string) bool {
+				if !(straddle && patchesAgree) {
+					return false
+				}
+				e.Rep.Hit("known:tail-truncation-data-loss")
+				e.Rep.Known("MergeMaps/tail-truncation-data-loss", symptom+" (the unchanged SendPatches splits a removed range whose from-node straddles previousKey on this input; real patch stream = model's: "+trunc(patches)+")", one)
+				return true
+			}
 			if out.err != "" {
-				e.Rep.Violate(key+"/error", "merge failed: "+out.err, one)
+				if !tailKnown("merge failed: " + firstLine(out.err)) {
+					e.Rep.Violate(key+"/error", "merge failed: "+out.err, one)
+				}
 				continue
 			}
 			if out.content != wc {
@@ -762,18 +798,32 @@ func runCase(e *hx.Env, sh *pk.Shipper, ns tree.NodeStore, c *Case) {
 				// whole (range patch) — so key BYTES are compared modulo the order's equivalence,
 				// keys and values exactly.
 				if foldKeys(out.content) != foldKeys(wc) {
-					e.Rep.Violate(key+"/content", "merged map differs from the key-wise three-way merge of the materialised maps: "+firstDiff(foldKeys(out.content), foldKeys(wc)), one)
+					what := "merged map differs from the key-wise three-way merge of the materialised maps: " + firstDiff(foldKeys(out.content), foldKeys(wc))
+					// (the content the model computes for an out-of-order stream need not be ApplyPatches' — the
+					// finding is identified by the flag and the agreeing patch streams)
+					if !tailKnown(what) {
+						e.Rep.Violate(key+"/content", what, one)
+					}
 					continue
 				}
 				e.Rep.Hit("content:key-bytes-differ")
 			}
 			if out.colls != wl {
-				e.Rep.Violate(key+"/collisions", "collision handler calls differ from the keys changed differently on both sides: "+firstDiff(out.colls, wl), one)
+				what := "collision handler calls differ from the keys changed differently on both sides: " + firstDiff(out.colls, wl)
+				if !(len(mparts) == 4 && mparts[3] == out.colls && tailKnown(what)) {
+					e.Rep.Violate(key+"/collisions", what, one)
+				}
 				continue
 			}
 			if plog != wl {
-				e.Rep.Violate("SendPatches/"+c.Kind+"/collisions", "collision handler calls (SendPatches) differ: "+firstDiff(plog, wl), one)
+				what := "collision handler calls (SendPatches) differ: " + firstDiff(plog, wl)
+				if !(len(mparts) == 4 && mparts[3] == plog && tailKnown(what)) {
+					e.Rep.Violate("SendPatches/"+c.Kind+"/collisions", what, one)
+				}
 				continue
+			}
+			if straddle {
+				e.Rep.Hit("straddle-present-but-correct")
 			}
 			if op.Mode == "C" || op.Mode == "L" {
 				// the two paths agree on every key and value; the key BYTES of a key that a side
@@ -788,13 +838,6 @@ func runCase(e *hx.Env, sh *pk.Shipper, ns tree.NodeStore, c *Case) {
 				if tw != out.content {
 					e.Rep.Hit("paths-agree:key-bytes-differ")
 				}
-			}
-			modFull := sh.M.Ask(fmt.Sprintf("merge %d %d %d %s", idb, idl, idr, op.Mode))
-			// the model appends `cause=0|1`: does ITS patch stream (the unchanged SendPatches) exhibit the
-			// cause of the known finding MergeMaps/canonical-shape for this input (design/C14.md)?
-			mod, cause := modFull, false
-			if k := strings.LastIndex(modFull, " cause="); k >= 0 {
-				mod, cause = modFull[:k], modFull[k:] == " cause=1"
 			}
 			got := "ok " + out.content + " " + patches + " " + wl
 			e.Rep.Sample(map[string]any{"kind": c.Kind, "m": c.M, "op": op, "patches": trunc(patches), "collisions": trunc(wl)})
